@@ -309,8 +309,9 @@ def findings_spec(rng, n_findings):
         for j, v in enumerate(chunk):
             ms.append([f"fn{i}_{j}", [line, 1], [line + v, 2], v])
             line += v + 1
+        loc = sum(chunk) if rng.random() < 0.8 else rng.choice([0, 1, 20, 30, 31, sum(chunk) + 7])
         s["entries"].append({"path": f"d{i % 2}/f{i}{G.LANG_EXT[lang]}", "checksum": "%032x" % rng.getrandbits(128), "language": lang,
-                             "loc": sum(chunk), "measurements": ms})
+                             "loc": loc, "measurements": ms})
     return s
 
 
